@@ -46,7 +46,7 @@ def gen(rng, ctx):
             pass
     if rng.random() < 0.3:
         cd = G.shuffle_nodes(rng, cd)
-    return {"op": op, "c": cd, "kind": kind, "k": rng.randint(2, 5), "stages": rng.randint(1, 4), "repeat": rng.random() < 0.25}
+    return {"op": op, "c": cd, "kind": kind, "k": rng.randint(2, 5), "stages": rng.randint(1, 4), "repeat": rng.random() < 0.25, "custom_ff": op == "insert_registers" and rng.random() < 0.35}
 
 
 def check(case, ctx):
@@ -125,9 +125,17 @@ def check(case, ctx):
             ctx.trivial()
             return
         boundaries = list(range(inc, maxd, inc))
-        ok, r = ctx.call(cg.tx.insert_registers, c, stages)
-        what = f"insert_registers(num_stages={stages})"
-        if case.get("repeat") and not repeat_call(ctx, op, what, cg.tx.insert_registers, (c, stages), {}, (ok, r)):
+        custom = case.get("custom_ff")
+        kw = {}
+        dp, qp, clkname = "d", "q", "clk"
+        if custom:
+            # a user-supplied flop type, port names, clock net and q suffix
+            dp, qp, clkname = "din", "qout", "clock_net"
+            kw = dict(ff=cg.BlackBox("myff", ["ck", "din", "en"], ["qout", "qn"]), d_port=dp, q_port=qp, other_flop_io={clkname: "ck"}, q_suffix="_r_")
+            ctx.count("insert_registers_custom_flop")
+        ok, r = ctx.call(cg.tx.insert_registers, c, stages, **kw)
+        what = f"insert_registers(num_stages={stages}{', custom flop' if custom else ''})"
+        if case.get("repeat") and not repeat_call(ctx, op, what, cg.tx.insert_registers, (c, stages), kw, (ok, r)):
             return
         if not ok:
             if isinstance(r, ValueError) and "hostile" in case["kind"]:
@@ -156,7 +164,7 @@ def check(case, ctx):
         qbufs = set()
         for inst in new_insts:
             bbname, ins, outs = after.bbs[inst]
-            d, q = f"{inst}.d", f"{inst}.q"
+            d, q = f"{inst}.{dp}", f"{inst}.{qp}"
             if d not in types or q not in types:
                 ctx.violation("insert_registers_pins", f"{what}: flop {inst} lacks d/q pins")
                 return
@@ -177,8 +185,8 @@ def check(case, ctx):
         extra_inputs = {n for n in extra if after.types[n] == "input"}
         if extra - extra_inputs:
             ctx.violation("insert_registers_extra_nodes", f"{what}: unexpected added nodes {sorted(extra - extra_inputs)}")
-        if extra_inputs - {"clk"}:
-            ctx.violation("insert_registers_extra_inputs", f"{what}: primary inputs {sorted(extra_inputs - {'clk'})} appeared (only the flop clock `clk` may be added)")
+        if extra_inputs - {clkname}:
+            ctx.violation("insert_registers_extra_inputs", f"{what}: primary inputs {sorted(extra_inputs - {clkname})} appeared (only the flop clock `{clkname}` may be added)")
         if after.inputs() - extra_inputs != before.inputs() or after.outputs != before.outputs:
             ctx.violation("insert_registers_io", f"{what}: io changed")
         transparent = Net(types, preds, after.outputs)
@@ -211,7 +219,7 @@ def gates(counters, table, tier):
         n = counters.get(f"regrouped:{t}:odd", 0) + counters.get(f"regrouped:{t}:even", 0)
         if n < 20:
             out.append(f"{t} regrouped only {n} times")
-    for k in ("regrouped:xor:odd", "regrouped:xor:even", "regrouped:xnor:odd", "regrouped:xnor:even", "fanout_split", "registers_inserted", "cmp:acyclic_unroll", "class:pins"):
+    for k in ("regrouped:xor:odd", "regrouped:xor:even", "regrouped:xnor:odd", "regrouped:xnor:even", "fanout_split", "registers_inserted", "insert_registers_custom_flop", "cmp:acyclic_unroll", "class:pins"):
         if counters.get(k, 0) < 5:
             out.append(f"{k} seen {counters.get(k, 0)} times")
     return out
